@@ -17,6 +17,9 @@ DOC = {
     'numpy.random.shuffle': 'np.random.shuffle(x): in-place application of an ARBITRARY permutation (havoc)',
     'numpy.random.randint': 'np.random.randint(lo,hi,size=m): ANY integer array of length m with lo <= entries < hi (havoc)',
     'numpy.array': 'np.array(list): same elements',
+    'os.path.join': 'os.path.join of relative separator-free segments = segments joined by /',
+    'os.path.normpath': 'normpath is the identity on relative, already normalised paths (BIDS precondition)',
+    'os.path.basename': 'basename = last /-separated segment',
     'numpy.maximum': 'np.maximum / np.minimum act element-wise (proved here per entry on real scalars)',
     'numpy.sqrt': 'np.sqrt(m) for an integer m >= 0 is the non-negative real root (exact float assumption below 2^52)',
     'numpy.ceil': 'np.ceil(np.sqrt(m)) is the least integer c with c*c >= m (exact float assumption below 2^52)',
@@ -325,6 +328,34 @@ def install(E):
     L['tqdm.trange'] = lambda E, n, **kw: RangeV(0, n)
     L['tqdm.tqdm'] = lambda E, x, **kw: x
     L['warnings.warn'] = lambda E, *a, **kw: None
+
+    def os_join(E, *segs):
+        from .interp import strv_concat, strv_plain
+        parts = []
+        for k, sg in enumerate(segs):
+            if k:
+                parts.append('/')
+            parts.append(sg)
+        v = strv_concat(parts)
+        if v is None:
+            return E.app('os.path.join', list(segs))
+        pl = strv_plain(v)
+        return pl if pl is not None else v
+    L['os.path.join'] = os_join
+
+    def os_normpath(E, p):
+        # assumed: the path is relative and already normalised (no '.', '..', '//' segments) -- the BIDS precondition
+        return p
+    L['os.path.normpath'] = os_normpath
+
+    def os_basename(E, p):
+        from .interp import strv_split, strv_of
+        from .values import StrV
+        s = strv_of(p)
+        if s is None:
+            return E.app('os.path.basename', [p])
+        return strv_split(s, '/')[-1]
+    L['os.path.basename'] = os_basename
 
     def np_len_like(E, x):
         return E.seq_len(x)
